@@ -52,9 +52,15 @@ pub struct Cfg {
     filler: usize,
 }
 
+thread_local! {
+    /// when the publisher put the datagram on the wire that is being delivered to the subscriber right now:
+    /// intervals are the publisher's business, the network's delays must not count
+    static SENT_AT: std::cell::Cell<u64> = const { std::cell::Cell::new(0) };
+}
+
 #[derive(Default)]
 struct Sub {
-    /// (virtual time us, value of attribute 1 if reported, number of items, subscription id)
+    /// (virtual time us at which the publisher sent it, value of attribute 1 if reported, number of items, subscription id)
     reports: Vec<(u64, Option<u32>, usize, Option<u32>)>,
     subscribed: Option<Result<(), String>>,
     /// the maximum interval the publisher announced in its SubscribeResponse
@@ -80,7 +86,7 @@ impl ExchangeHandler for SubHandler {
                 Item::Data { ep: 1, cl, attr: 1, value, .. } if *cl == CL => u32_of(value),
                 _ => None,
             });
-            self.sub.borrow_mut().reports.push((vclock::now(), v, items.len(), sub_id));
+            self.sub.borrow_mut().reports.push((SENT_AT.with(|c| c.get()), v, items.len(), sub_id));
             if suppress {
                 exchange.acknowledge().await?;
             } else {
@@ -159,7 +165,7 @@ fn build(cfg: &Cfg) -> World {
     for i in 0..3u32 {
         attrs.push(AttrSpec { id: 2 + i, access: Access::RV, quality: Quality::NONE, value: Val::Bytes(vec![0x42 + i as u8; cfg.filler]) });
     }
-    let node = NodeSpec { endpoints: vec![EndpointSpec { id: 0, device_type: 0x16, clusters: vec![] }, EndpointSpec { id: 1, device_type: 0x100, clusters: vec![ClusterSpec { id: CL, attrs, cmds: vec![] }] }] };
+    let node = NodeSpec { endpoints: vec![EndpointSpec { id: 0, device_type: 0x16, clusters: vec![] }, EndpointSpec { id: 1, device_type: 0x100, clusters: vec![ClusterSpec { id: CL, attrs, cmds: vec![], events: vec![] }] }] };
     let dm = TestDm::new(node);
     let sub = Rc::new(RefCell::new(Sub::default()));
     let h = Owned::new(SubHandler { sub: sub.clone() });
@@ -202,7 +208,7 @@ fn build(cfg: &Cfg) -> World {
                                     Item::Data { ep: 1, cl, attr: 1, value, .. } if *cl == CL => u32_of(value),
                                     _ => None,
                                 });
-                                sub2.borrow_mut().reports.push((vclock::now(), v, items.len(), sub_id));
+                                sub2.borrow_mut().reports.push((SENT_AT.with(|c| c.get()), v, items.len(), sub_id));
                                 ex.send(MessageMeta::new(imdrv::PROTO_IM, imdrv::OP_STATUS, true), &imdrv::status_response(0)).await?;
                             }
                             imdrv::OP_SUBSCRIBE_RESP => {
@@ -344,6 +350,9 @@ pub fn run_one(cfg: &Cfg, prefix: &[usize]) -> Result<Outcome<RunResult>, String
         match en[choice] {
             Action::Deliver(k) => {
                 vclock::advance_by_ms(1);
+                if let Some(d) = w.net.0.borrow().inflight.get(k) {
+                    SENT_AT.with(|c| c.set(d.sent_at_us));
+                }
                 w.net.deliver(k, false);
             }
             Action::Drop(k) => {
@@ -352,6 +361,9 @@ pub fn run_one(cfg: &Cfg, prefix: &[usize]) -> Result<Outcome<RunResult>, String
             }
             Action::Dup(k) => {
                 vclock::advance_by_ms(1);
+                if let Some(d) = w.net.0.borrow().inflight.get(k) {
+                    SENT_AT.with(|c| c.set(d.sent_at_us));
+                }
                 w.net.deliver(k, true);
             }
             Action::Tick => {
